@@ -912,6 +912,30 @@ fn run_case(rt: &Runtime, w: &World, c: &[u64]) -> Option<(Vec<u64>, Vec<u64>)> 
                     };
                     let (conn, l) = (lists[i].0.expect("opened"), &lists[i].1);
                     let script = scripts[i].clone().expect("installed");
+                    // what the other transports report (base-3 digits of (outcome-1) / total, in
+                    // the order TCP, WebSocket, QUIC without the winner): 0 nothing, 1 an
+                    // OpenFailure for all their addresses before the ConnectionOpened event, 2 after
+                    let m = (outcome as usize - 1) / total;
+                    let others: Vec<usize> = (0..3).filter(|x| *x != i).collect();
+                    let roles = [m % 3, (m / 3) % 3];
+                    let report = |when: usize, manager: &mut TransportManager| {
+                        for (slot, o) in others.iter().enumerate() {
+                            if roles[slot] != when {
+                                continue;
+                            }
+                            if let (Some(oconn), Some(oscript)) = (lists[*o].0, &scripts[*o]) {
+                                let errors = lists[*o]
+                                    .1
+                                    .iter()
+                                    .enumerate()
+                                    .map(|(n, a)| (a.clone(), err_at(offsets[*o] + n)))
+                                    .collect();
+                                oscript.inject_open_failure_with(oconn, errors);
+                                manager.verif_drain();
+                            }
+                        }
+                    };
+                    report(1, &mut node.manager);
                     let errors = l[..pos]
                         .iter()
                         .enumerate()
@@ -919,6 +943,7 @@ fn run_case(rt: &Runtime, w: &World, c: &[u64]) -> Option<(Vec<u64>, Vec<u64>)> 
                         .collect();
                     script.inject_connection_opened_with(conn, l[pos].clone(), errors);
                     node.manager.verif_drain();
+                    report(2, &mut node.manager);
                     script.inject_connection_established(w.peers[peer as usize], conn, l[pos].clone(), false);
                     node.manager.verif_drain();
                     script.resolve_accept(conn, true);
@@ -1964,6 +1989,108 @@ fn gen_lp_case(rng: &mut Rng, pools: &Pools) -> Vec<u64> {
     c
 }
 
+/// Mixed-outcome block: a dial(peer) whose selection spans every installed transport, one case
+/// per (order of the transports' reports) x (score of the addresses beforehand).
+const MIXED_ORDERS: u64 = 6;
+const NMIXED: u64 = MIXED_ORDERS * SWEEP_PRIORS;
+
+/// Peer 1 has K addresses per installed transport (K = number of error kinds with two transports,
+/// 21 with three), all with the prior score. One dial(peer) episode, attempt i failing with kind
+/// codes[(i + shift) mod n]:
+///   order 0  every other transport reports OpenFailure for all its addresses, THEN the
+///            WebSocket transport opens the connection on its first address
+///   order 1  WebSocket opens first, then the others report their OpenFailure
+///   order 2  the others fail, then TCP opens on its first address
+///   order 3  TCP opens first, then the others fail
+///   order 4  the first other transport fails before, the second after a WebSocket
+///            ConnectionOpened on its 4th address that carries the errors of the 3 before it
+///   order 5  every transport fails
+/// then addresses(limit), a second dial(peer) in which everything fails, a rediscovery.
+fn mixed_case(codes: &[u64], index: u64) -> Vec<u64> {
+    let (order, prior) = (index % MIXED_ORDERS, index / MIXED_ORDERS);
+    let peer = 1u64;
+    let ntr: usize = if FQ == 1 { 3 } else { 2 };
+    let k = if ntr == 2 { codes.len().min(30) } else { 21 };
+    let mut ops: Vec<Vec<u64>> = Vec::new();
+    let mut addrs: Vec<Abs> = Vec::new();
+    for t in 0..ntr {
+        for i in 0..k {
+            let id = 3000 + (t * 100 + i) as u64;
+            let host = if prior == 1 { (0, 3 * 65536 + id) } else { (0, 2 * 65536 + id) };
+            let port = 2000 + (t * 100 + i) as u64;
+            let mut a = match t {
+                0 => vec![host, (5, port)],
+                1 => vec![host, (5, port), (7, 0)],
+                _ => vec![host, (6, port), (9, 0)],
+            };
+            a.push((10, peer));
+            let mut op = vec![0, peer, 1];
+            enc_abs(&a, &mut op);
+            op.extend([0, 0]);
+            ops.push(op);
+            let mut setup = Vec::new();
+            match prior {
+                2 => {
+                    setup.extend([2, peer]);
+                    enc_abs(&a, &mut setup);
+                    setup.extend([0, 0]);
+                }
+                3 | 4 => {
+                    setup.push(1);
+                    enc_abs(&a, &mut setup);
+                    setup.extend([if prior == 3 { 0 } else { 1 }, 0]);
+                }
+                5 | 6 => {
+                    setup.extend([8, peer]);
+                    enc_abs(&a, &mut setup);
+                    setup.extend([(if prior == 5 { 7 } else { -7 } + SCORE_BIAS) as u64, 0]);
+                }
+                _ => {}
+            }
+            if !setup.is_empty() {
+                ops.push(setup);
+            }
+            addrs.push(a);
+        }
+    }
+    let total = (ntr * k) as u64;
+    // (position of the attempt that connects in tcp ++ ws ++ quic, roles of the others)
+    let (j, m) = match order {
+        0 => (k as u64, 4),
+        1 => (k as u64, 8),
+        2 => (0, 4),
+        3 => (0, 8),
+        4 => (k as u64 + 3, 7),
+        _ => (0, 0),
+    };
+    let outcome = if order == 5 { 0 } else { 1 + j + total * m };
+    let shift = (index as usize * 5) % codes.len();
+    let mut dial = |outcome: u64, shift: usize| {
+        let mut op = vec![DIAL_TAG, peer, outcome, codes.len() as u64];
+        op.extend((0..codes.len()).map(|i| codes[(i + shift) % codes.len()]));
+        op.extend([0, 0]);
+        if DIAL_TAG == 14 {
+            op.push(0);
+        }
+        ops.push(op);
+        ops.push(vec![3, peer, 64, 0]);
+    };
+    dial(outcome, shift);
+    dial(0, shift + 11);
+    let mut op = vec![0, peer, addrs.len() as u64];
+    for a in &addrs {
+        enc_abs(a, &mut op);
+    }
+    op.extend([0, 0]);
+    ops.push(op);
+    ops.push(vec![3, peer, 64, 0]);
+    let mut c = vec![1, FQ, 1, 1, FQ, 0, 0, ops.len() as u64];
+    for op in ops {
+        c.extend(op);
+    }
+    c
+}
+
 /// every LP_EVERY-th random case runs at the level of `Litep2p`
 const LP_EVERY: u64 = 8;
 
@@ -1974,6 +2101,10 @@ fn gen_case(rng: &mut Rng, codes: &[u64], pools: &Pools, index: u64, thorough: b
         return sweep_case(codes, index);
     }
     let index = index - NSWEEP;
+    if index < NMIXED {
+        return mixed_case(codes, index);
+    }
+    let index = index - NMIXED;
     let nip = ip_sweep_cases() as u64;
     if index < nip {
         return ip_sweep_case(index as usize);
@@ -2145,7 +2276,7 @@ fn gen_case(rng: &mut Rng, codes: &[u64], pools: &Pools, index: u64, thorough: b
         } else {
             // dial(peer): half of the attempts fail completely, the others succeed somewhere;
             // the failing attempts time out (tag 7) or fail with kinds of every sort (tag 9)
-            let outcome = if g.rng.chance(50) { 0 } else { g.rng.range(1, 200) };
+            let outcome = if g.rng.chance(50) { 0 } else { g.rng.range(1, 400) };
             let p = if g.rng.chance(4) { g.rng.below(NPEERS) } else { peer };
             if FQ == 0 && g.rng.chance(25) {
                 c.extend([7, p, outcome, 0, 0]);
